@@ -37,7 +37,19 @@ func (fc *FnCtx) execCall(s *State, fn *ssa.Function, x *ssa.Call, k callK, rk r
 		args = append(args, fc.val(s, a))
 	}
 	if b, ok := cc.Value.(*ssa.Builtin); ok {
-		k(s, fc.builtin(s, x, b.Name(), args))
+		r := fc.builtin(s, x, b.Name(), args)
+		if fc.ct != nil && s.depth == 0 {
+			site := fc.callOrd[x]
+			for _, h := range fc.ct.Hints {
+				if h.Where != "after:"+site {
+					continue
+				}
+				henv := &Env{fc: fc, names: map[string]Val{}, cellsAt: s, heap: s.heap, oldNames: fc.entry, oldHeap: fc.oldHeap, pos: x.Pos(),
+					nalloc0: fc.nalloc0, nobj0: fc.nobj0, bound: map[string]Val{"result": r}}
+				fc.applyHint(s, henv, h, "after "+site)
+			}
+		}
+		k(s, r)
 		return
 	}
 	if cc.IsInvoke() {
